@@ -43,7 +43,7 @@ def replay(body):
     try:
         if 'variant' in a:
             v = a['variant']
-            probs = run_variant(pattern, frame, a['peaks'], a['method'], v['crop_function'], v['upsample'], v['bc'], v['prefill'])
+            probs = run_variant(pattern, frame, a['peaks'], a['method'], v['crop_function'], v['upsample'], v['bc'], v['prefill'], v.get('cdt', 'int32'))
         else:
             outs = run(pattern, frame, a['peaks'])
             probs = check_oracle(pattern, frame, a['peaks'], a['method'], outs)
@@ -56,24 +56,35 @@ def replay(body):
     return 0
 
 
-def run_variant(pattern, frame, peaks, method, cf=None, ups=False, bc=None, prefill=False):
+def run_variant(pattern, frame, peaks, method, cf=None, ups=False, bc=None, prefill=False, cdt='int32'):
     """one call of the stand-alone kernel with the given crop function ('numba' / 'slicing' / None = default), upsampling setting, number of
     crop buffers, and (prefill) crop buffers / frame buffer that have been used for another frame before; returns the problems"""
     from libertem_blobfinder.base import correlation as blc
     fn = {None: None, 'numba': blc.crop_disks_from_frame, 'slicing': blc.crop_disks_from_frame_slicing}[cf]
     c = pattern.get_crop_size()
     kw = {}
+    n = len(peaks)
+    # the centres output in the caller's integer dtype (the docstrings use uint16): a centre that does not fit wraps there -- the caller's
+    # choice --, but the refined position, height and elevation written next to it are floats and must be the documented ones
+    outs = (np.full((n, 2), 0, dtype=cdt), np.full((n, 2), np.nan, dtype=np.float32), np.full((n,), np.nan, dtype=np.float32), np.full((n,), np.nan, dtype=np.float32))
     if method == 'fast':
         bufs = np.zeros((bc or len(peaks), 2 * c, 2 * c), dtype=np.float32)
         if prefill:
             other = ((np.arange(frame.size, dtype=np.float32).reshape(frame.shape) * 5.0) % 11.0 + 3.0).astype(np.float32)
             cl.run_fast(pattern, other, peaks, crop_function=fn, crop_bufs=bufs)
-        outs = cl.run_fast(pattern, frame, peaks, crop_function=fn, upsample=ups, crop_bufs=bufs)
+        cl.run_fast(pattern, frame, peaks, crop_function=fn, upsample=ups, crop_bufs=bufs, outs=outs)
     else:
         fb = np.zeros(frame.shape, dtype=np.float32)
         if prefill:
             fb[:] = 4.25
-        outs = cl.run_full(pattern, frame, peaks, bc=bc, crop_function=fn, upsample=ups, frame_buf=fb)
+        cl.run_full(pattern, frame, peaks, bc=bc, crop_function=fn, upsample=ups, frame_buf=fb, outs=outs)
+    if cdt not in ('int32', 'int64'):
+        # undo the wrap of the centres with the help of the window they must lie in ([peak - c, peak + c - 1]): unique modulo 2**bits > 2c
+        bits = np.dtype(cdt).itemsize * 8
+        pk = np.asarray(peaks, dtype=np.int64)
+        cen = outs[0].astype(np.int64)
+        cen = pk - c + ((cen - (pk - c)) % (2 ** bits))
+        outs = (cen,) + outs[1:]
     return check_oracle(pattern, frame, peaks, method, outs, upsampled=bool(ups))
 
 
@@ -154,7 +165,9 @@ def run(ctx):
         c = pattern.get_crop_size()
         fy, fx = int(rng.integers(12, 26)), int(rng.integers(12, 26))
         ints, fk = cl.rand_frame(rng, fy, fx, one=1)
-        base, dt = [(0, 'float32'), (2 ** 30, 'float64'), (-10 ** 9, 'float64'), (2 ** 27, 'int32'), (2 ** 40, 'int64')][int(rng.integers(0, 5))]
+        base, dt = [(0, 'float32'), (2 ** 30, 'float64'), (-10 ** 9, 'float64'), (2 ** 27, 'int32'), (2 ** 40, 'int64'), (2 ** 25, 'float32'), (-5 * 10 ** 7, 'float32')][int(rng.integers(0, 7))]
+        if dt == 'float32' and base:
+            ints = ints.astype(np.int64) * 4          # float32 resolves steps of 4 at this magnitude: the values below are exact
         frame = (ints.astype(np.int64) + base).astype(dt)
         peaks = cl.rand_peaks(rng, fy, fx, c, int(rng.integers(1, 4)), where='inside')
         method = 'fast' if k % 2 == 0 else 'full'
@@ -196,16 +209,18 @@ def run(ctx):
         ups = [False, True, 4, False][(k // 2) % 4]
         bc = int(rng.choice([1, 1, 2, len(peaks)]))
         prefill = bool(rng.integers(0, 2))
+        cdt = ['int32', 'int32', 'uint16', 'uint32', 'int16', 'int64', 'uint8'][int(rng.integers(0, 7))]
+        ctx.hist('variant: centre buffer dtype', cdt)
         try:
-            probs = run_variant(pattern, frame, peaks, method, cf, ups, bc, prefill)
+            probs = run_variant(pattern, frame, peaks, method, cf, ups, bc, prefill, cdt)
         except Exception as e:  # noqa
             probs = ['raised %s: %s' % (type(e).__name__, e)]
-        ctx.count(len(peaks), key=('variant', json.dumps(desc)[:160], fy, fx, tuple(peaks), method, cf, ups, bc, prefill))
+        ctx.count(len(peaks), key=('variant', json.dumps(desc)[:160], fy, fx, tuple(peaks), method, cf, ups, bc, prefill, cdt))
         ctx.hist('variant: crop function / upsample', '%s/%s' % (cf, ups))
         if probs:
             ctx.violation('input', 'process_frame_%s (crop function %s, upsample=%s, %d crop buffer(s)%s, frame %dx%d) output differs from its definition: %s' % (
                 method, cf, ups, bc, ', buffers used before' if prefill else '', fy, fx, probs[0]),
-                case_replay(desc, ints, 1, peaks, method, probs, extra={'variant': {'crop_function': cf, 'upsample': ups, 'bc': bc, 'prefill': prefill}}))
+                case_replay(desc, ints, 1, peaks, method, probs, extra={'variant': {'crop_function': cf, 'upsample': ups, 'bc': bc, 'prefill': prefill, 'cdt': cdt}}))
             break
     ctx.extra['oracle_frames'] = nS
     ctx.run_modes()
